@@ -32,7 +32,15 @@ def checkTrans (sch : Schema) : Bool :=
     ((sch.descs[t]?).getD []).all (fun d =>
       ((sch.descs[d]?).getD []).all (fun e => ((sch.descs[t]?).getD []).contains e)))
 
+/-- required parameters are bound -/
+def checkParams (sch : Schema) (db : DB) : Bool :=
+  (List.range sch.params.length).all (fun i =>
+    !(sch.params[i]?).getD false || (match db.params[i]? with
+      | some (some _) => true
+      | _ => false))
+
 def checkDB (sch : Schema) (db : DB) : Bool :=
+  checkParams sch db &&
   checkTrans sch &&
   decide ((db.objs.map (·.1)).Nodup) &&
   (List.range sch.ptrs.length).all (fun p =>
@@ -76,12 +84,12 @@ theorem checkTrans_sound (sch : Schema) (h : checkTrans sch = true) :
 theorem checkDB_sound (sch : Schema) (db : DB) (h : checkDB sch db = true) : Conforms sch db := by
   unfold checkDB at h
   simp only [Bool.and_eq_true, decide_eq_true_eq, List.all_eq_true, List.mem_range] at h
-  obtain ⟨⟨htr, hids⟩, hp⟩ := h
+  obtain ⟨⟨⟨hpar, htr⟩, hids⟩, hp⟩ := h
   have hptr : ∀ p d, sch.ptr? p = some d → checkPtr sch db p d = true := by
     intro p d hpd
     have := hp p (ptr?_lt hpd)
     simpa [hpd] using this
-  refine ⟨hids, checkTrans_sound sch htr, ?_, ?_, ?_, ?_⟩
+  refine ⟨hids, checkTrans_sound sch htr, ?_, ?_, ?_, ?_, ?_⟩
   · intro p d id ty hpd hid hty
     have := hptr p d hpd
     simp only [checkPtr, Bool.and_eq_true, List.all_eq_true] at this
@@ -118,6 +126,15 @@ theorem checkDB_sound (sch : Schema) (db : DB) (h : checkDB sch db = true) : Con
     · rcases this.1.2 with h1 | h1
       · simp [hl] at h1
       · exact h1 id (get_ne_nil_mem_keys db p id hne)
+  · intro i hi
+    have hlt : i < sch.params.length := (List.getElem?_eq_some_iff.1 hi).1
+    unfold checkParams at hpar
+    simp only [List.all_eq_true, List.mem_range] at hpar
+    have := hpar i hlt
+    simp only [hi, Option.getD_some, Bool.not_true, Bool.false_or] at this
+    split at this
+    · rename_i n hn; exact ⟨n, hn⟩
+    · cases this
   · intro p d hpd hex
     have := hptr p d hpd
     simp only [checkPtr, Bool.and_eq_true, Bool.or_eq_true, Bool.not_eq_eq_eq_not, Bool.not_true,
